@@ -70,8 +70,7 @@ Section EncCor.
        exists b, genc fuel fl sq pid mi ms st0 os oi = Ok (st0 ++ b, (glen st0, 4%Z), gnil) /\ encode tl p = Ok b).
     Proof.
       pose proof (encode_spec tl p gparam_nodup) as ES.
-      assert (u32 (info_size (p_int p) (p_str p)) = info_size (p_int p) (p_str p)) as Eu by (apply N.mod_small; exact Hnw).
-      rewrite Eu in ES. split; intros H.
+      split; intros H.
       - destruct (N.ltb_spec L_max (info_size (p_int p) (p_str p))) as [_|H']; [|lia]. apply g_encode_err. exact ES.
       - destruct (N.ltb_spec L_max (info_size (p_int p) (p_str p))) as [H'|_]; [lia|].
         eexists. split; [apply g_encode_ok; exact ES|exact ES].
